@@ -231,6 +231,7 @@ PATTERNS = [
     (r'yes|no|maybe so', ['yes', 'no', 'maybe so'], ['yesno', 'nope', 'maybe', 'maybe sooo']),
     (r'.+\$', ['a$', '12$'], ['a$b', '$']),
     # patterns with upper-case letters: with case_sensitive=False the pattern sees the lower-cased text and is applied as written
+    (r'', [''], ['a', 'cat', '0', '  x']),        # the empty pattern matches the empty text only
     (r'YES|NO', ['YES', 'NO'], ['yes', 'No', 'YESNO', 'no']),
     (r'[A-Z][a-z]+', ['Cat', 'Dog'], ['cat', 'CAT', 'cAt', 'Cat7']),
     (r'[a-z]+[0-9]?', ['cat', 'cat7'], ['Cat', 'CAT7', '7cat']),
